@@ -12,11 +12,11 @@ Proof. exact amp_ok_escape. Qed.
 Print Assumptions C03_escape_amp.
 
 (* the HTML filter under the three non-raw policies *)
-Theorem C03_policy : forall s html,
-  (html_policy (s_mode s) = PDrop -> htmlSafeModeFilter s html = []) /\
-  (html_policy (s_mode s) = PReplace -> htmlSafeModeFilter s html = s_repl s) /\
-  (html_policy (s_mode s) = PEscape -> htmlSafeModeFilter s html = escape html) /\
-  (html_policy (s_mode s) = PRaw -> htmlSafeModeFilter s html = html).
+Theorem C03_policy : forall (s : ienv) html,
+  (html_policy (en_mode s) = PDrop -> htmlSafeModeFilter s html = []) /\
+  (html_policy (en_mode s) = PReplace -> htmlSafeModeFilter s html = en_repl s) /\
+  (html_policy (en_mode s) = PEscape -> htmlSafeModeFilter s html = escape html) /\
+  (html_policy (en_mode s) = PRaw -> htmlSafeModeFilter s html = html).
 Proof. exact filter_cases. Qed.
 Print Assumptions C03_policy.
 
